@@ -305,6 +305,41 @@ theorem feed_rel
   simp only []
   rw [← Gen.feed_length g0 s.seen, List.drop_left]
 
+/-- what the specification answers is itself independent of the chunking of the requests: the
+outputs for `xs` followed by the outputs for `zs` are the outputs for `xs ++ zs` (and the stream is
+left with the same snapshot and the same delivered items) -/
+theorem spec_feed_append
+    (hfs : ∀ (n d : List (Int × K)) mem zero xs, filterCall n d mem zero xs = specCall n d mem zero xs)
+    (s : SStrm K) (xs zs : List K) :
+    (specImpl (α := K)).feed s (xs ++ zs)
+      = (((specImpl (α := K)).feed s xs).1 ++ ((specImpl (α := K)).feed ((specImpl (α := K)).feed s xs).2 zs).1,
+         ((specImpl (α := K)).feed ((specImpl (α := K)).feed s xs).2 zs).2) := by
+  have h1 := hfs s.num s.den s.mem s.zero (s.seen ++ (xs ++ zs))
+  have h2 := hfs s.num s.den s.mem s.zero (s.seen ++ xs)
+  have h3 := hfs s.num s.den s.mem s.zero (s.seen ++ xs ++ zs)
+  rw [filterCall_eq_filterGen] at h1 h2 h3
+  simp only [specImpl, List.append_assoc]
+  cases hg : filterGen s.num s.den s.mem s.zero with
+  | error e =>
+    rw [hg] at h1 h2 h3
+    simp only [Except.map] at h1 h2 h3
+    simp only [List.append_assoc] at h3
+    rw [← h1, ← h2]
+    simp
+  | ok g0 =>
+    rw [hg] at h1 h2 h3
+    simp only [Except.map] at h1 h2 h3
+    simp only [List.append_assoc] at h3
+    rw [← h1, ← h2]
+    simp only [Prod.mk.injEq, and_true]
+    rw [← List.append_assoc, Gen.feed_append g0 (s.seen ++ xs) zs]
+    simp only []
+    rw [Gen.feed_append g0 s.seen xs]
+    simp only [List.drop_append, List.length_append, Gen.feed_length]
+    have hl : (g0.feed s.seen).1.length = s.seen.length := Gen.feed_length g0 s.seen
+    have hl2 : ((g0.feed s.seen).2.feed xs).1.length = xs.length := Gen.feed_length _ xs
+    simp [hl, hl2, List.drop_append, List.drop_eq_nil_of_le]
+
 theorem histModel_eq_histSpec
     (hfs : ∀ (n d : List (Int × K)) mem zero xs, filterCall n d mem zero xs = specCall n d mem zero xs)
     (ops : List (HOp K)) : histModel ops = histSpec ops :=
